@@ -44,6 +44,8 @@ pub enum Mw {
     ShortCircuit(u16),
     /// issues its own request through the client it is given, then continues
     Issuer(u8),
+    /// ... and that nested request carries per-request middleware of its own (a marker)
+    IssuerMarked(u8, u8),
     Redirect(u8),
 }
 
@@ -116,6 +118,7 @@ fn mark(id: u32, s: String) {
 struct Marker(u32, u8);
 struct ShortCircuit(u32, u16);
 struct Issuer(u32, u8);
+struct IssuerMarked(u32, u8, u8);
 
 #[async_trait::async_trait]
 impl Middleware for Marker {
@@ -140,6 +143,17 @@ impl Middleware for Issuer {
     async fn handle(&self, req: crux_http::Request, client: Client, next: Next<'_>) -> crux_http::Result<ResponseAsync> {
         mark(self.0, format!("issue {}", self.1));
         let _ = client.get(format!("https://sim.test/extra/{}?id={}", self.1, self.0)).await;
+        let r = next.run(req, client).await;
+        mark(self.0, format!("issued {}", self.1));
+        r
+    }
+}
+
+#[async_trait::async_trait]
+impl Middleware for IssuerMarked {
+    async fn handle(&self, req: crux_http::Request, client: Client, next: Next<'_>) -> crux_http::Result<ResponseAsync> {
+        mark(self.0, format!("issue {}", self.1));
+        let _ = client.get(format!("https://sim.test/extra/{}?id={}", self.1, self.0)).middleware(Marker(self.0, self.2)).await;
         let r = next.run(req, client).await;
         mark(self.0, format!("issued {}", self.1));
         r
@@ -179,6 +193,7 @@ macro_rules! with_mw {
                 Mw::Marker(k) => b.middleware(Marker($id, *k)),
                 Mw::ShortCircuit(s) => b.middleware(ShortCircuit($id, *s)),
                 Mw::Issuer(t) => b.middleware(Issuer($id, *t)),
+                Mw::IssuerMarked(t, k) => b.middleware(IssuerMarked($id, *t, *k)),
                 Mw::Redirect(n) => b.middleware(Redirect::new(*n)),
             };
         }
@@ -193,6 +208,7 @@ fn http_with_client_mw(http: &crux_http::Http<HEvent>, id: u32, mws: &[Mw]) -> c
             Mw::Marker(k) => h.verif_with_client_middleware(Marker(id, *k)),
             Mw::ShortCircuit(s) => h.verif_with_client_middleware(ShortCircuit(id, *s)),
             Mw::Issuer(t) => h.verif_with_client_middleware(Issuer(id, *t)),
+            Mw::IssuerMarked(t, k) => h.verif_with_client_middleware(IssuerMarked(id, *t, *k)),
             Mw::Redirect(n) => h.verif_with_client_middleware(Redirect::new(*n)),
         };
     }
@@ -1090,6 +1106,16 @@ fn eval(stack: &[Mw], graph: &[Node], url: &str, post: bool, body_len: usize, id
             r.marks.push(format!("issued {t}"));
             s
         }
+        Mw::IssuerMarked(t, k) => {
+            r.marks.push(format!("issue {t}"));
+            // the nested request goes through its own per-request middleware, then to the shell
+            r.marks.push(format!("enter {k}"));
+            r.seen.push(Seen { url: format!("https://sim.test/extra/{t}?id={id}"), post: false, body_len: 0 });
+            r.marks.push(format!("exit {k}"));
+            let s = eval(rest, graph, url, post, body_len, id, r);
+            r.marks.push(format!("issued {t}"));
+            s
+        }
         Mw::Redirect(n) => {
             // follow at most n redirects with body-less probes, resolving relative locations
             // against the *current* URL; stop at the first non-redirect; then send the original
@@ -1177,7 +1203,8 @@ impl Check for Http16 {
                 .map(|_| match rng.below(10) {
                     0..=3 => Mw::Marker(rng.below(9) as u8),
                     4 => Mw::ShortCircuit(*rng.pick(&[200, 404, 302])),
-                    5 | 6 => Mw::Issuer(rng.below(9) as u8),
+                    5 => Mw::Issuer(rng.below(9) as u8),
+                    6 => Mw::IssuerMarked(rng.below(9) as u8, 10 + rng.below(9) as u8),
                     _ => Mw::Redirect(rng.range(0, 6) as u8),
                 })
                 .collect()
@@ -1268,7 +1295,7 @@ impl Check for Http16 {
             }
             let ctx = format!("request {} via {:?}, stack {:?}, start {}", spec.id, spec.api, stack, spec.url);
             // the bound holds even where the statement is silent
-            let bound: usize = stack.iter().map(|m| match m { Mw::Redirect(n) => *n as usize + 1, Mw::Issuer(_) => 1, _ => 0 }).sum::<usize>() + 1;
+            let bound: usize = stack.iter().map(|m| match m { Mw::Redirect(n) => *n as usize + 1, Mw::Issuer(_) | Mw::IssuerMarked(..) => 1, _ => 0 }).sum::<usize>() + 1;
             if real_seen.len() > bound {
                 return Err(viol("C16", "round_trip_bound", format!("{ctx}: {} shell round trips, at most {bound} allowed", real_seen.len())));
             }
